@@ -28,6 +28,7 @@ type Config struct {
 	NoBlocks   bool     // no nested blocks
 	NoCompl    bool     // no ^x
 	NoCalls    bool     // functions do not call each other (so each can be rejected on its own)
+	Neg        bool     // MiniGo statements goose must reject (assignment to := variables, unsupported op-assign, misplaced returns)
 	Inject     bool     // insert out-of-subset / look-alike statements at random positions (C02)
 	Comments   []string // comment texts to sprinkle (C05)
 	StrLits    []string // string literal contents to use (C05)
@@ -57,18 +58,19 @@ const (
 )
 
 type gen struct {
-	r        *rng.R
-	cfg      Config
-	pkg      *Package
-	frames   [][]*varInfo
-	fn       *Func
-	nv       int
-	structs  []*StructDecl
-	funcs    []*Func
-	consts   []*ConstDecl
-	deps     map[string]bool
-	inLoop   int
-	injected int
+	r         *rng.R
+	cfg       Config
+	pkg       *Package
+	frames    [][]*varInfo
+	fn        *Func
+	nv        int
+	structs   []*StructDecl
+	funcs     []*Func
+	consts    []*ConstDecl
+	deps      map[string]bool
+	inLoop    int
+	injected  int
+	negWanted bool
 }
 
 var interesting = []uint64{0, 1, 2, 3, 7, 8, 63, 64, 255, 256, 65535, 1 << 31, 1<<32 - 1, 1 << 32, 1<<63 - 1, 1 << 63, 1<<64 - 1}
@@ -710,7 +712,64 @@ func joinStr(xs []string, sep string) string {
 	return out
 }
 
+// negStmt: a statement inside the MiniGo syntax that goose rejects.
+func (g *gen) negStmt(u usage, depth int, results []*Type) *Stmt {
+	lets := g.varsOf(func(v *varInfo) bool { return !v.ptr && v.t.K == KU64 })
+	vars := g.varsOf(func(v *varInfo) bool { return v.ptr && v.t.K == KU64 })
+	sink := g.lookup("sink")
+	switch g.r.Intn(6) {
+	case 0:
+		if len(lets) > 0 {
+			v := rng.Pick(g.r, lets)
+			return &Stmt{Op: "assign", Lhs: &Expr{Op: "var", T: v.t, Name: v.name}, E: g.expr(v.t, 1)}
+		}
+	case 1:
+		if len(lets) > 0 {
+			v := rng.Pick(g.r, lets)
+			return &Stmt{Op: "incdec", Lhs: &Expr{Op: "var", T: v.t, Name: v.name}, Tok: rng.Pick(g.r, []string{"++", "--"})}
+		}
+	case 2:
+		if len(vars) > 0 {
+			v := rng.Pick(g.r, vars)
+			op := rng.Pick(g.r, []string{"*=", "<<=", ">>=", "&^="})
+			var e *Expr
+			if op == "<<=" || op == ">>=" {
+				e = Lit(TU64, uint64(g.r.Intn(8)))
+			} else {
+				e = g.expr(v.t, 1)
+			}
+			return &Stmt{Op: "opassign", Lhs: &Expr{Op: "var", T: v.t, Name: v.name}, Tok: op, E: e}
+		}
+	case 3:
+		return &Stmt{Op: "assign", Lhs: Var(sink), E: Bin("&^", TU64, Var(sink), g.nc(g.intExpr(TU64, 1)))}
+	case 4:
+		if u == uReturned && depth > 0 {
+			// early return with an else branch, statements follow
+			s := &Stmt{Op: "if", E: g.boolExpr(1), HasElse: true}
+			s.Body = g.block(uReturned, 0, 0, nil, results)
+			s.Else = []*Stmt{{Op: "assign", Lhs: Var(sink), E: Bin("+", TU64, Var(sink), Lit(TU64, 1))}}
+			return s
+		}
+	case 5:
+		if u == uReturned && depth > 0 {
+			// a return inside a conditional that is not in tail position of its list
+			inner := &Stmt{Op: "if", E: g.boolExpr(1)}
+			inner.Body = g.block(uReturned, 0, 0, nil, results)
+			s := &Stmt{Op: "if", E: g.boolExpr(1)}
+			s.Body = []*Stmt{inner, {Op: "assign", Lhs: Var(sink), E: Bin("+", TU64, Var(sink), Lit(TU64, 2))}}
+			return s
+		}
+	}
+	return nil
+}
+
 func (g *gen) stmt1(u usage, depth int, ss *[]*Stmt, results []*Type) *Stmt {
+	if g.cfg.Neg && g.negWanted && g.injected < 1 && g.r.Intn(4) == 0 {
+		if s := g.negStmt(u, depth, results); s != nil {
+			g.injected++
+			return s
+		}
+	}
 	if g.cfg.Inject && g.injected < 2 && g.r.Intn(6) == 0 {
 		g.injected++
 		return g.inject(u, results)
@@ -823,7 +882,12 @@ func (g *gen) stmt1(u usage, depth int, ss *[]*Stmt, results []*Type) *Stmt {
 			bound := uint64(1 + g.r.Intn(5))
 			var hi *Expr = Lit(TU64, bound)
 			if sl := g.varsOf(func(v *varInfo) bool { return v.t.K == KSlice }); len(sl) > 0 && g.r.Intn(2) == 0 {
-				hi = mk("len", TU64, Var(rng.Pick(g.r, sl)))
+				sv := rng.Pick(g.r, sl)
+				if sv.name == name { // the loop variable must not hide the slice its bound mentions
+					name = g.fresh(false)
+					iv.name = name
+				}
+				hi = mk("len", TU64, Var(sv))
 			}
 			ive := &Expr{Op: "var", T: TU64, Name: name}
 			s := &Stmt{Op: "for",
@@ -1104,6 +1168,7 @@ func (g *gen) function(name string, recv *Param) *Func {
 	g.fn = f
 	g.nv = 0
 	g.injected = 0
+	g.negWanted = g.r.Intn(2) == 0
 	g.deps = map[string]bool{}
 	g.frames = nil
 	var pre []*varInfo
